@@ -4,6 +4,7 @@ package chain
 
 import (
 	"github.com/aergoio/aergo-lib/db"
+	"github.com/aergoio/aergo/v2/state"
 	"github.com/aergoio/aergo/v2/types"
 )
 
@@ -80,3 +81,6 @@ func VerifC05ErrBlocks(cs *ChainService) (ids []types.BlockID) {
 	}
 	return ids
 }
+
+// VerifC05SDB is the state DB of a Core (the harness' block producer commits block states into it).
+func (core *Core) VerifC05SDB() *state.ChainStateDB { return core.sdb }
